@@ -184,7 +184,7 @@ impl Context {
         *expr = expr.trim_start();
     }
 
-    fn eval_term(&self, expr: &mut &str, line: u32) -> Result<bool, Error> {
+    fn eval_term(&self, expr: &mut &str, line: u32) -> Result<i64, Error> {
         self.skip_whitespace(expr);
 
         let index = expr
@@ -208,7 +208,24 @@ impl Context {
             })?
             .is_ascii_digit()
         {
-            Ok(term == "1")
+            // A C integer constant: hexadecimal, octal or decimal
+            let value = if let Some(hex) = term.strip_prefix("0x").or_else(|| term.strip_prefix("0X")) {
+                i64::from_str_radix(hex, 16)
+            } else if term.len() > 1 && term.starts_with('0') {
+                i64::from_str_radix(&term[1..], 8)
+            } else {
+                term.parse::<i64>()
+            };
+            value.map_err(|_| {
+                let filename = self.current_filename.clone();
+                let included_in = self.includes_stack.last().cloned();
+                Error::Syntax {
+                    filename,
+                    included_in,
+                    line,
+                    msg: "Invalid number".to_string(),
+                }
+            })
         } else {
             let filename = self.current_filename.clone();
             let included_in = self.includes_stack.last().cloned();
@@ -220,29 +237,37 @@ impl Context {
             })
         }
     }
-    fn eval_unary(&self, expr: &mut &str, line: u32) -> Result<bool, Error> {
-        let mut negate = false;
+    fn eval_unary(&self, expr: &mut &str, line: u32) -> Result<i64, Error> {
+        let mut nots = 0;
         self.skip_whitespace(expr);
         while expr.starts_with('!') {
             *expr = &expr[1..];
-            negate = !negate;
+            nots += 1;
             self.skip_whitespace(expr);
         }
 
-        Ok(negate ^ self.eval_term(expr, line)?)
+        let value = self.eval_term(expr, line)?;
+        // !x is 1 when x is 0, and 0 otherwise
+        Ok(if nots == 0 {
+            value
+        } else if nots % 2 == 1 {
+            (value == 0) as i64
+        } else {
+            (value != 0) as i64
+        })
     }
-    fn eval_eq(&self, expr: &mut &str, line: u32) -> Result<bool, Error> {
+    fn eval_eq(&self, expr: &mut &str, line: u32) -> Result<i64, Error> {
         let mut result = self.eval_unary(expr, line)?;
         self.skip_whitespace(expr);
         while expr.starts_with("==") {
             *expr = &expr[2..];
-            result ^= !self.eval_unary(expr, line)?;
+            result = (result == self.eval_unary(expr, line)?) as i64;
             self.skip_whitespace(expr);
         }
         Ok(result)
     }
     fn evaluate(&self, mut expr: &str, line: u32) -> Result<bool, Error> {
-        let result = self.eval_eq(&mut expr, line)?;
+        let result = self.eval_eq(&mut expr, line)? != 0;
         self.skip_whitespace(&mut expr);
         if !expr.is_empty() {
             let filename = self.current_filename.clone();
